@@ -9,7 +9,7 @@ use serde_json::json;
 use std::collections::BTreeSet;
 
 pub fn run(r: &mut Report) {
-    crate::c01::agreement_matrix(r, 12, "order-independence");
+    crate::c01::agreement_matrix(r, crate::util::scale(12, 40), "order-independence");
     let owner = key(1);
     let ks = [key(2), key(3), key(4), key(5)];
     // threshold 1, four valid authorised links that differ in their products
@@ -25,11 +25,11 @@ pub fn run(r: &mut Report) {
         let l = layout(vec![step("a", 1, &refs, allow_all(), rules)], vec![], &refs, 30);
         let lay = signed_layout(&l, &[&owner]);
         let mut seen = BTreeSet::new();
-        for _ in 0..40 {
+        for _ in 0..crate::util::scale(40, 200) {
             let res = no_panic(|| in_toto_verify(&lay, owner_keys(&[&owner]), d.path().to_str().unwrap(), None));
             seen.insert(match &res { Ok(v) => verdict(v), Err(p) => format!("panic: {}", p) });
         }
-        r.case(id, json!({"step": "a threshold 1", "links": "4 valid authorised links with different products", "repetitions": 40}),
+        r.case(id, json!({"step": "a threshold 1", "links": "4 valid authorised links with different products", "repetitions": crate::util::scale(40, 200)}),
                "one outcome", format!("{} distinct outcomes: {:?}", seen.len(), seen), seen.len() == 1);
     }
 }
